@@ -101,7 +101,9 @@ def qhost (q : Query) : Bytes := lower (trimDot q.name)
 def reserved (c : Conf) (q : Query) : Bool :=
   (c.aaaaDisabled && q.qtype == tAAAA) ||
   ((q.qtype == tA || q.qtype == tAAAA) && q.name == mozillaFQDN) ||
-  q.name == healthcheckFQDN
+  q.name == healthcheckFQDN ||
+  -- names of DHCP clients under the local domain are the built-in DHCP server's business
+  (dhcpHost c q).isSome
 
 /-- per-client vs global safe browsing / parental switches -/
 def sbConfigured (c : Conf) : Bool :=
